@@ -28,7 +28,7 @@ from checks import CHECKS  # noqa: E402
 
 def goenv():
     e = dict(os.environ)
-    e.update(GOFLAGS="-mod=mod", GOPROXY="off", GOSUMDB="off", GOTOOLCHAIN="local",
+    e.update(TZ="UTC", GOFLAGS="-mod=mod", GOPROXY="off", GOSUMDB="off", GOTOOLCHAIN="local",
              CGO_ENABLED=e.get("CGO_ENABLED", "1"))
     return e
 
@@ -166,6 +166,8 @@ def run_check(pid, tier, seed, replay=None):
             sd = os.path.join(work, "s%d" % k)
             os.makedirs(sd)
             env = goenv()
+            env.setdefault("GOGC", "off")
+            env.setdefault("GOMEMLIMIT", "2GiB")
             env.update(VERIF_OUT=fragdir, VERIF_TIER=tier, VERIF_SHARD=str(k), VERIF_NSHARDS=str(shards),
                        VERIF_BIN=work, VERIF_SEED=str(seed), VERIF_KF=os.path.join(HERE, "known_findings.json"),
                        VERIF_SCRATCH=os.path.join(work, "s%d" % k, "data"), VERIF_REPO=REPO,
